@@ -10,7 +10,7 @@ rsync -a --exclude .git --exclude docs --exclude 'tests/end2endtest' --exclude a
 ( cd "$S" && patch -p1 -s < "$PATCH" )
 cd "$(dirname "$0")/.."
 set +e
-PYVC_REPO="$S" python3-vt -m pyvc.runner "$PID" "$@"
+PYVC_REPO="$S" PYVC_EVIDENCE_DIR="$S/.evidence" python3-vt -m pyvc.runner "$PID" "$@"
 RC=$?
 rm -rf "$S"
 echo "exit=$RC"
